@@ -10,11 +10,12 @@ def run(F, G, tier, seed):
     routing.run_endpoints(chk, F)
     routing.run_iter(chk, F)
     routing.run_labelorder(chk, F)
+    routing.run_nodrop(chk, F, G)
     instances.run(chk, F, rid="R-POSBIND")
     return chk.finish(
         "Decides the routing clauses of C04: each is a def-use chain through named interface points (label kind table, "
         "start-token table, start productions, builder callbacks, argument positions, field assignments) resolved by "
-        "callee and field identity; plus element iteration order and the positional binding of instantiation "
-        "arguments.",
+        "callee and field identity; plus element iteration order the positional binding of instantiation "
+        "arguments, and that no storing callback can leave silently without storing.",
         not_decided="equality of the whole document with the XML for generated models (a runtime relation); names, "
                     "ids and declarations beyond the routing of their text blocks")
